@@ -1,7 +1,7 @@
 SPECIFICATION Spec
 CONSTANTS
- NK = 3
- NV = 1
+ NK = 2
+ NV = 2
  BF = 2
  MaxLayer = 1
  NH = 2
